@@ -31,15 +31,16 @@ META = {
     "property_id": "C07",
     "design_ref": "DESIGN.md §4 C07 (+ C06 Dist.v, C15 SplitRecovery.v, C05 Blocking.v, §3.5 ranks, §6 F6, Appendix B.2)",
     "technique": "Coq proof (induction over parameter lists, recovered-piece chains, block boxes and histories) on a flat-shard model generic in the per-block computation, composed with the C06 cluster model for HSDP + correspondence on simulated shard ranks with hand-made flat shards (bit-exact, evaluated by vm_compute) + certified checkers on the observed shards / block index sets / logs",
-    "level_text": "Theorems (Fsdp*.v) for any shapes of any order, any shard boundaries (mid-row, empty), any number of parameters and ranks, any history, any per-block computation: fsdp_eq_serial_on_recovered (block values, block states, step counter and every shard slice = the single-process optimizer on the recovered pieces as independent parameters), empty_shard_no_blocks / empty_shard_ignored, shards_update_each_element_once (rec_chain + blocks_tile => Permutation with 0..numel-1 across ranks), grad_bookkeeping_aligned (gradient blocks = the parameter's stored block views, for any selector), metadata_partition (torch shard infos -> start/end convention), hsdp_eq_fsdp_plus_ddp / hsdp_eq_serial_on_recovered / hsdp_replicas_agree / hsdp_collective_logs_equal (instances of the C06 theorems per shard column, under no_starvation), rank_addrs_nodup / rank_shards_read_back (the blocks of a rank address pairwise distinct shard elements, so the shard semantics `writeback` is exactly what in-place updates through the views leave). The starvation clause is REFUTED on the faithful model (C07_hsdp_starvation_refuted) and reproduced on the implementation: known finding C07:rank-starvation (F6 through the HSDP copy). Tie: exhaustive layouts for small shapes x all (start,end) x both distributors, stub flat-param handles through torch's own _get_shard_metadata and compile_fsdp_parameter_metadata, optimizer runs on 1..8 (quick 1..4) shard ranks and R x S meshes, bit-for-bit.",
+    "level_text": "Theorems (Fsdp*.v) for any shapes of any order, any shard boundaries (mid-row, empty), any number of parameters and ranks, any history, any per-block computation: fsdp_eq_serial_on_recovered (block values, block states, step counter and every shard slice = the single-process optimizer on the recovered pieces as independent parameters), empty_shard_no_blocks / empty_shard_ignored, shards_update_each_element_once (rec_chain + blocks_tile => Permutation with 0..numel-1 across ranks), grad_bookkeeping_aligned (gradient blocks = the parameter's stored block views, for any selector), metadata_partition (torch shard infos -> start/end convention), hsdp_eq_fsdp_plus_ddp / hsdp_eq_serial_on_recovered / hsdp_replicas_agree / hsdp_collective_logs_equal (instances of the C06 theorems per shard column, for EVERY history: the skip rule as repaired in /repo discharges the no_starvation hypothesis), rank_addrs_nodup / rank_shards_read_back (the blocks of a rank address pairwise distinct shard elements, so the shard semantics `writeback` is exactly what in-place updates through the views leave). Rank starvation (F6 through the HSDP copy, repaired in /repo) is kept as a witness: C07_hsdp_starvation_harmless (the starving history runs, replicas agree; the pre-repair variant blocks). Tie: exhaustive layouts for small shapes x all (start,end) x both distributors, stub flat-param handles through torch's own _get_shard_metadata and compile_fsdp_parameter_metadata, optimizer runs on 1..8 (quick 1..4) shard ranks and R x S meshes, bit-for-bit.",
     "level_note": "Trusted: Coq kernel+vm_compute; the hand-written model; harness/sim.py (stand-ins for torch.distributed / DeviceMesh / DTensor); the serial implementation is the oracle for the per-block mathematics (its per-block independence is exercised, not proved); the real FullyShardedDataParallel wrapper is not run (no accelerator) - only compile_fsdp_parameter_metadata on stub handles carrying exactly the attributes it reads, with shard infos produced by torch's own FlatParamHandle._get_shard_metadata.",
     "ready": True,
 }
 
 SIG_STARVATION = "C07:rank-starvation"
-GLOBAL_SKIP = False     # True once step() skips only when NO block of the group has a gradient (repair of F6)
+GLOBAL_SKIP = True      # step() skips only when NO block of the group has a gradient (F6 repaired in /repo)
+# for testing a candidate repair in a scratch copy only (like VERIF_REPO; registered commands never set these)
 if os.environ.get("VERIF_REPO", "/repo") != "/repo":
-    GLOBAL_SKIP = os.environ.get("C06_GLOBAL_SKIP", "0") == "1"
+    GLOBAL_SKIP = os.environ.get("C07_GLOBAL_SKIP", os.environ.get("C06_GLOBAL_SKIP", "1" if GLOBAL_SKIP else "0")) == "1"
 
 THEOREMS = ["C07_fsdp_eq_serial_on_recovered", "C07_empty_shard_ignored", "C07_shards_update_each_element_once",
             "C07_grad_bookkeeping_aligned", "C07_hsdp_eq_fsdp_plus_ddp", "C07_hsdp_replicas_agree", "C07_metadata_partition"]
@@ -424,7 +425,7 @@ def hsdp_input_signature(spec, cuts_ranges):
         bp = block_presence(spec["presence"], cs["nbp"])
         cs["starving_steps"] = starving_steps(bp, cs["owners"], spec["gs"])
         cols.append(cs)
-    return {"cols": cols, "starves": any(c["starving_steps"] for c in cols) and not GLOBAL_SKIP}
+    return {"cols": cols, "starves": any(c["starving_steps"] for c in cols)}     # input side of the (repaired) defect F6
 
 
 # --------------------------------------------------------------------------------------
@@ -1247,7 +1248,7 @@ def run(ck: Check) -> None:
             "fsdp_mid_row_cuts": midrow, "fsdp_max_pieces_per_rank": hist(fev, lambda r: max(r["summary"]["pieces_per_rank"])),
             "hsdp_scenarios": len(hev), "hsdp_mesh": hist(hev, lambda r: f"{r['spec']['R']}x{r['spec']['S']}"), "hsdp_group_size": hist(hev, lambda r: r["spec"]["gs"]),
             "hsdp_communicate_params": hist(hev, lambda r: r["spec"]["cp"]), "hsdp_dtype": hist(hev, lambda r: r["spec"]["cdtype"]), "hsdp_presence_kind": hist(hev, lambda r: r["spec"]["kind"]),
-            "hsdp_starving_histories": sum(1 for r in hev if r["sig"]["starves"]), "hsdp_scenarios_with_hung_rank": sum(1 for r in hev if any(r["summary"]["hung"])),
+            "hsdp_starving_histories": sum(1 for r in hev if any(r["sig"]["starving_steps"])), "hsdp_scenarios_with_hung_rank": sum(1 for r in hev if any(r["summary"]["hung"])),
         },
         "disagreements_model_vs_implementation": {"layout": len(lbad), "metadata": len(mbad), "fsdp": len(fcorr), "hsdp": len(hcorr)},
         "checker_failures": {"fsdp": len(fviol), "hsdp_rank_starvation": len(f6), "hsdp_other": len(hviol), "rank_errors": len(ferr) + len(herr)},
@@ -1260,7 +1261,7 @@ def run(ck: Check) -> None:
         "HSDP per-block search directions are replayed from the implementation run (oracle) in the Dist.v model; only the distributor's own arithmetic (float32 add, bf16/fp16 rounding) is recomputed in Coq",
         "every replica of a shard column receives the same gradient shard (HSDP reduces gradients before the optimizer step)",
     ]
-    ck.notes.append(f"expected on the unchanged tree: KNOWN-FINDING {SIG_STARVATION} (DESIGN §6 F6 through HSDPDistributor.update_params); Coq witness C07_hsdp_starvation_refuted")
+    ck.notes.append(f"{SIG_STARVATION} (F6 through HSDPDistributor.update_params) was repaired in /repo: starving histories are generated on purpose and must pass; Coq witness C07_hsdp_starvation_harmless")
 
 
 def replay(obj) -> bool:
